@@ -9,3 +9,33 @@ pub mod oracle;
 pub mod run;
 pub mod session;
 pub mod wire;
+
+/// Entry point for the libFuzzer targets under /verif/fuzz: run one generated case of
+/// `property`/`part`, panic (= libFuzzer crash) when the oracle rejects it with a signature that
+/// is not an open known finding.
+pub fn fuzz_one(property: &str, part: &str, data: &[u8]) {
+    use std::sync::OnceLock;
+    static KNOWN: OnceLock<Vec<String>> = OnceLock::new();
+    let known = KNOWN.get_or_init(|| {
+        run::load_known(&run::verif_root())
+            .into_iter()
+            .filter(|k| k.status == "open")
+            .map(|k| format!("{}/{}", k.property, k.signature))
+            .collect()
+    });
+    let parts = match checks::parts_for(property) {
+        Some(p) => p,
+        None => return,
+    };
+    for p in &parts {
+        if p.name() == part {
+            if let Some((case, f)) = p.fuzz_bytes(data) {
+                if known.iter().any(|k| k == &format!("{}/{}", property, f.sig)) {
+                    return;
+                }
+                let s = serde_json::to_string(&case).unwrap_or_default();
+                panic!("ORACLE-VIOLATION property={} part={} signature={}\n{}\ncase: {}", property, part, f.sig, f.msg, &s[..s.len().min(2000)]);
+            }
+        }
+    }
+}
